@@ -20,7 +20,7 @@ def tsan_reports(text):
         tops = []
         for st in stacks[:3]:
             fr = re.findall(r'#\d+ (\S+) (\S+)', st)
-            lib = [f for f, loc in fr if build.REPO + '/src' in loc or 'xrayglob_inline' in loc]
+            lib = [f for f, loc in fr if build.REPO + '/src' in loc or '/tree/src/' in loc or 'xrayglob_inline' in loc]
             if lib:
                 tops.append(lib[0])
         out.append(dict(kind=kind, funcs=sorted(set(tops)) or ['?'], text=blk[:2500]))
@@ -90,11 +90,21 @@ def main(tier):
             plan.append(('shipped' if i % 3 else 'kissel', 'tsan', 8, 2500, 30, i % 2))
         for i in range(10):
             plan.append(('kissel' if i % 3 == 0 else 'shipped', 'plain', 8 if i % 2 else 16, 20000, 20, (i + 1) % 2))
+        # the library as the PROJECT builds it (meson: its language standard, its optimisation level, no hook points), plain and with meson's own
+        # -Db_sanitize=thread: what is thread-safe only under the monitor's compiler flags is not thread-safe
+        for i in range(4):
+            plan.append(('shipped', 'meson-tsan', 8, 2500, 0, i % 2))
+        for i in range(4):
+            plan.append(('shipped', 'meson', 8 if i % 2 else 16, 20000, 0, (i + 1) % 2))
     else:
         for i in range(400):
             plan.append(('shipped' if i % 3 else 'kissel', 'tsan', 8 if i % 4 else 16, 12000, 10 + (i % 5) * 20, i % 2))
         for i in range(400):
             plan.append(('kissel' if i % 3 == 0 else 'shipped', 'plain', 8 if i % 2 else 16, 150000, (i % 4) * 15, (i + 1) % 2))
+        for i in range(60):
+            plan.append(('shipped' if i % 3 else 'kissel', 'meson-tsan', 8 if i % 4 else 16, 12000, 0, i % 2))
+        for i in range(60):
+            plan.append(('kissel' if i % 3 == 0 else 'shipped', 'meson', 8 if i % 2 else 16, 150000, 0, (i + 1) % 2))
     libs, mons, queries, refs, corner = {}, {}, {}, {}, {}
     for cfg in ('shipped', 'kissel'):
         libs[cfg] = execlib.Lib(cfg)
@@ -129,7 +139,7 @@ def main(tier):
         refs[cfg] = ref_run(libs[cfg])
         refs[(cfg, 1)] = ref_run(execlib.Lib(cfg, env=dict(LOCPATH=locdir, LC_ALL='xx_VERIF', XV_SETLOCALE='1')))
         refs[(cfg, 0)] = refs[cfg]
-        for fl in ('tsan', 'plain'):
+        for fl in ('tsan', 'plain', 'meson', 'meson-tsan'):
             mons[(cfg, fl)] = build.harness(cfg, fl, 'thrmon')
     fnname = {f['id']: n for n, f in libs['shipped'].fns.items()}
     fnname.update({v: k for k, v in execlib.SPECIAL_ID.items()})
@@ -142,14 +152,14 @@ def main(tier):
         # ThreadSanitizer runs work on a seeded subset of ~400 requests so that every request is executed by several threads
         # many times (a race needs two threads in the SAME code); plain runs use the whole set
         ref = refs[(cfg, 1 if loc else 0)]
-        if fl == 'tsan' and len(Q) > 500:
+        if fl.endswith('tsan') and len(Q) > 500:
             sel = np.random.default_rng(ck.seed * 7907 + i).choice(len(Q), 400, replace=False)
             sel = np.union1d(sel, corner[cfg])
             Q = Q[sel]
             ref = execlib.Res(ref.raw[sel], ref.msgs)
         # every second run starts cold (first library calls of the process are concurrent; reference from another process)
         # second phase of every run: thread-private crystal arrays filled from files (Crystal_ReadFile), digests against serial ones
-        feps = (150 if fl == 'tsan' else 2500) if tier == 'quick' else (400 if fl == 'tsan' else 8000)
+        feps = (150 if fl.endswith('tsan') else 2500) if tier == 'quick' else (400 if fl.endswith('tsan') else 8000)
         return job, run_one(mons[(cfg, fl)], Q, S, th, calls, yld, env, ck.seed * 1000 + i, ref=ref if i % 2 else None, fileeps=feps)
     # TSan runs are CPU heavy (8-16 threads each): a few at a time
     with ThreadPoolExecutor(3) as ex:
@@ -202,6 +212,7 @@ def main(tier):
             ck.violation('c17:private-crystal-file-read-differs-from-serial', '%d of %d Crystal_ReadFile episodes on thread-private arrays differ from the serial digest (last: file %d)' % (
                 rep['file_mismatches'], rep['file_episodes'], rep['file_bad']), where)
         tot['file_episodes'] = tot.get('file_episodes', 0) + rep.get('file_episodes', 0)
+        tot['runs_per_build'] = tot.get('runs_per_build', {}); tot['runs_per_build'][fl] = tot['runs_per_build'].get(fl, 0) + 1
         tot['runs'] += 1; tot['cold'] = tot.get('cold', 0) + rep.get('cold', 0); tot['calls'] += rep['calls']; tot['events'] += rep['hook_events']; tot['yields'] += rep['yields']
         tot['failing'] += rep['failing_calls']; tot['errapi'] += rep['error_api_uses']
         for k in range(5):
@@ -217,7 +228,7 @@ def main(tier):
                     'parser, catalogue lookups, crystal copies + structure factors, error copy/propagate on private slots), ThreadSanitizer build and plain build, '
                     'C and comma-decimal locale, seeded yields at the library hook points; every result compared bit for bit with a serial reference; '
                     'distinct = distinct overlap signatures (region entered x set of regions other threads were inside) observed through the hooks',
-               samples=samples, runs=tot['runs'], cold_start_runs=tot.get('cold', 0), first_use_runs_one_per_entry_point=tot.get('first_use_runs', 0), hook_events=tot['events'], injected_yields=tot['yields'],
+               samples=samples, runs=tot['runs'], runs_per_build=tot.get('runs_per_build'), cold_start_runs=tot.get('cold', 0), first_use_runs_one_per_entry_point=tot.get('first_use_runs', 0), hook_events=tot['events'], injected_yields=tot['yields'],
                region_entries=dict(zip(REGION, tot['enter'])), entries_while_other_threads_inside=dict(zip(REGION, tot['overlap'])),
                private_crystal_file_episodes=tot.get('file_episodes', 0), overlap_signatures=tot['sigs'], failing_calls=tot['failing'], error_api_uses=tot['errapi'])
     return ck.finish(cov, ['TSan sees only instrumented code and intercepted libc calls', 'no thread mutates a shared crystal collection (documented exception)'])
